@@ -101,6 +101,48 @@ def campaign(c):
             if name in ('tcp-s', 'icmp-r'): e.update(src=0x0a090807, dst=0x0a010203)
             netscen.judge(c, fr, raw, e, 'l4', dict(src=src.decode()))
         c.case(('dc', i), dict(kind='double-carry', builder=name, payload_len=len(pre) + 2 + len(tail)))
+    # crafted: sums that overflow a WIDE accumulator's own fold. An implementation that adds 32 or 64 bits at a time and folds the
+    # accumulator down loses a carry only when a partial sum sits on the word boundary: (a) runs of ff words followed by a small
+    # word (payload summed on its own), (b) one word tuned so that the low half of the word sum of the whole segment is all-ones
+    def word_sum(frame, raw, W):
+        ip = frame if raw else frame[14:]
+        proto, seg = ip[9], bytearray(ip[20:])
+        off = {6: 16, 17: 6, 1: 2}[proto]
+        seg[off:off + 2] = b'\0\0'
+        seg += b'\0' * (-len(seg) % W)
+        return sum(int.from_bytes(seg[i:i + W], 'big') for i in range(0, len(seg), W))
+    def one(tag, i, name, decl, stmt, l4, raw, payload):
+        src = ('import ipv4;\n' + decl % (', raw: true' if raw else '') + '\n' + stmt % ('"|%s|"' % payload.hex()) + '\n').encode()
+        impl, model = progdiff.run_both(c, src)
+        progdiff.compare(c, src, impl, model, tag, project=project(raw), times=False)
+        if impl['outcome'][0] == 'success':
+            fr = progdiff.pcap_records(impl['file'])[0][1]
+            e = dict(src=0x0a010203, dst=0x0a090807, sport=4000, dport=53, proto=0, id=0, ttl=64, off=0, evil=False, df=False, mf=False, l4=l4, eth='ip')
+            if name in ('tcp-s', 'icmp-r'): e.update(src=0x0a090807, dst=0x0a010203)
+            netscen.judge(c, fr, raw, e, 'l4', dict(src=src.decode()))
+            c.count(tag + '-case')
+        c.case((tag, i), dict(kind=tag, builder=name, payload_len=len(payload)))
+    i = 0
+    for W in (4, 8):
+        for (k, j) in ((2, 1), (3, 1), (8, 1), (8, 7), (8, 8), (40, 1)) if c.quick else [(k, j) for k in (1, 2, 3, 8, 40, 300) for j in (0, 1, 2, k - 1, k, k + 1) if j >= 0]:
+            for name, decl, stmt, l4 in (kinds if not c.quick else kinds[i % 2::2]):
+                r = c.rng.fork('wc%d' % i); i += 1
+                raw = r.chance(1, 3)
+                one('wide-carry', i, name, decl, stmt, l4, raw, b'\xff' * (W * k) + j.to_bytes(W, 'big') + (r.bytes(r.below(W)) if r.chance(1, 3) else b''))
+    for i in range(10 if c.quick else 200):
+        r = c.rng.fork('wt%d' % i)
+        name, decl, stmt, l4 = kinds[i % len(kinds)]
+        W = (4, 8)[(i // len(kinds)) % 2]
+        raw = r.chance(1, 3)
+        pre = b'\xff' * (W * (2 + r.below(12))) + r.bytes(W * r.below(4))
+        tail = r.bytes(r.below(W)) if r.chance(1, 2) else b''
+        def prog(w):
+            return ('import ipv4;\n' + decl % (', raw: true' if raw else '') + '\n' + stmt % ('"|%s|"' % (pre + w + tail).hex()) + '\n').encode()
+        f0 = progdiff.pcap_records(core.run_cli(prog(b'\0' * W))['pcap'] or b'')
+        if not f0: continue
+        a0 = word_sum(f0[0][1], raw, W)
+        w = ((-1 - a0) % (1 << (8 * W))).to_bytes(W, 'big')
+        one('wide-tuned', i, name, decl, stmt, l4, raw, pre + w + tail)
     c.assumptions += ['expected ports/ids/sequence numbers come from the scenario generator']
 
 
